@@ -86,6 +86,12 @@ INVENTORY = [
      "extensions[start + 1..]", "Model/PresentLine.v (C16) — file content, not request bytes; borrowed component present.parse"),
     ("src/extensions.rs nonce (Present)", "&body[value_start + 1..]; BytesCow::replace expect(..)", "Model/Nonce.v nonce_never_panics (C14) — file content"),
     ("src/csp.rs Package", "value.as_str().len() + 1; nonce.as_ref().unwrap()", "Model/Nonce.v package chain (C14); exploration"),
+    ("src/application.rs ByteBody::read_n/read_rest", "content.len() - self.read; content.slice(read..read + n)",
+     "read <= len is kept by both methods (n is clamped first); bodies of pushed / synthetic requests only, not read from the client; not modelled"),
+    ("utils/src/lib.rs make_path / hardcoded_error_body", "path.split_off(pos) (only with an extension argument: error pages, configuration); "
+     "220 - 58 + message.len() (constants)", "Model/PathSan.v make_path (C01) for the request path (extension = None); the rest takes no client bytes"),
+    ("src/extensions.rs add_sorted_list!", "panic!(\"reached minimum priority ..\") at i32::MIN", "configuration time (C16), no client input"),
+    ("src/vary.rs get_header", "capacity arithmetic over configured header names; from_maybe_shared_unchecked", "configured names only (asserted in add_rule)"),
     ("utils/src/lib.rs quoted_str_split", "-", "Model/Quoted.v (C19): control socket only, not reachable over HTTP"),
     ("http, h2, h3, rustls, moka, time, tokio, percent-encoding, mime", "-", "not modelled; exploration run only (explore.conn, explore.date)"),
 ]
@@ -548,7 +554,9 @@ TRUSTED = ["modelled here (Model/Panics.v): utils/src/parse.rs query, Query::{in
            "(repaired code, commit 14150b4), src/comprash.rs PathQuery, src/extensions.rs stream_body (window arithmetic)",
            "borrowed models (tied by their own properties and re-run here): Http1Read.v, Range.v, RangeConn.v, PathSan.v, Negotiate.v, Cors.v, Hosts.v, "
            "PresentLine.v, Limiter.v, Nonce.v",
-           "harness/src/c02.rs, c02conn.rs (loopback client, counting panic hook), c07.rs (scripted reader), c09.rs, c06.rs, c13.rs, c15.rs, c01.rs, c16.rs"]
+           "harness/src/c02.rs, c02conn.rs (loopback client, counting panic hook), c07.rs (scripted reader), c09.rs, c06.rs, c13.rs, c15.rs, c01.rs, c16.rs",
+           "the ORDER in which request_path composes the stages is a hand transcription of handle_connection / handle_cache / SendKind::send; "
+           "each stage is compared with the code, the composition as a whole only through the exploration run (no panic on a live connection)"]
 LEVEL_TEXT = ("Machine-checked Coq theorems: every modelled parser / decision function on the request path returns without panic for EVERY input "
               "(request heads under every read schedule and end mode, header blocks, Range / Accept-Encoding / Origin / Host values, paths, query "
               "strings, query iterator scripts, cache keys, stream windows; both arithmetic modes where overflow matters), and the composition "
